@@ -4,7 +4,7 @@ object with the command line's defaults (normalize=True, propagate_evidence=True
   * after every step each learned parameter is in [0,1] and the parameters of one annotated disjunction sum to <= 1,
   * when every tunable fact / AD head is observed in every example (and exactly one head of the AD holds in each),
     the first step returns the relative frequencies.
-Programs: 1-2 t(_) facts, optionally one t(_) AD with 2-3 heads, 0-2 rules; 30 examples sampled (VERIF_SEED) from a
+Programs: 1-2 t(_) facts (30%: 3-5 facts started at t(0.001..0.03) with true parameters 0.5-0.9), optionally one t(_) AD with 2-3 heads, 0-2 rules; 30 examples sampled (VERIF_SEED) from a
 reference parameter setting, complete or partial.  Never counted as proved."""
 import contextlib
 import io
@@ -15,12 +15,15 @@ from bounded.util import Collector, classify_exception
 
 
 def gen(rng):
-    nf = rng.randint(1, 2)
+    small = rng.random() < 0.3
+    nf = rng.randint(3, 5) if small else rng.randint(1, 2)
     facts = ["f%d" % i for i in range(nf)]
     heads = []
     if rng.random() < 0.5:
         heads = ["h%d" % i for i in range(rng.randint(2, 3))]
-    lines = ["t(_)::%s." % f for f in facts]
+    # (small: more facts, started from explicit tiny values, so that the probability of an example's evidence starts
+    # many orders of magnitude below where it ends)
+    lines = ["t(%s)::%s." % (rng.choice(["0.01", "0.001", "0.03"]) if small else "_", f) for f in facts]
     if heads:
         lines.append("; ".join("t(_)::%s" % h for h in heads) + ".")
     atoms = facts + heads
@@ -32,7 +35,7 @@ def gen(rng):
         d = "u%d" % k
         rules.append("%s :- %s." % (d, ", ".join(lits)))
         derived.append((d, list(zip(body, [l.startswith("\\+") for l in lits]))))
-    true_p = dict((f, rng.choice([0.2, 0.35, 0.5, 0.8])) for f in facts)
+    true_p = dict((f, rng.choice([0.5, 0.8, 0.9] if small else [0.2, 0.35, 0.5, 0.8])) for f in facts)
     if heads:
         ws = [rng.randint(1, 5) for _ in heads]
         for h, w in zip(heads, ws):
@@ -123,7 +126,7 @@ def check_one(seed):
 def run(pid, tier, seed):
     n = 1500 if tier == "thorough" else 200
     col = Collector("C24:lfi-step-contract",
-                    "%d seeded learning problems (1-2 t(_) facts, optionally one t(_) annotated disjunction with 2-3 heads, 0-2 "
+                    "%d seeded learning problems (1-2 t(_) facts, or in 30%% of them 3-5 facts with explicit start values 0.001-0.03 and reference parameters 0.5-0.9, optionally one t(_) annotated disjunction with 2-3 heads, 0-2 "
                     "rules with possibly negated literals; 30 examples sampled from a reference setting in which the AD always "
                     "selects a head; half of the problems with complete observations, half observing each atom with probability "
                     "0.6); LFIProblem with the command line's defaults, 12 calls of step(); non-trivial = the problem was "
